@@ -4,6 +4,7 @@ import (
 	"fmt"
 	"go/ast"
 	"go/token"
+	"sort"
 	"strings"
 )
 
@@ -335,11 +336,13 @@ func minMaxIssues(rs *Resid, fn *ast.FuncDecl, dir int) ([]sideIssue, string) {
 				}
 			}
 			// replaced by that very element
-			vdef := ""
+			vdef, vkey := "", ""
 			if d, ok := defs.lookup(vname, as.Pos()); ok {
 				vdef = canon(expand(d, defs, 0))
+				vkey = elemKey(expand(d, defs, 0))
 			}
-			if elem != vname && elem != vdef {
+			// list[1:][i] and list[i+1] are the same element
+			if elem != vname && elem != vdef && (vkey == "" || elemKey(expand(as.Rhs[0], defs, 0)) != vkey) {
 				out = append(out, sideIssue{as, fmt.Sprintf("replaces the running %s by %s, not by the element that was just compared", which, rs.src(as.Rhs[0])), "replace-other-element", ""})
 			}
 		}
@@ -355,6 +358,41 @@ func minMaxIssues(rs *Resid, fn *ast.FuncDecl, dir int) ([]sideIssue, string) {
 		return out, und
 	}
 	return out, ""
+}
+
+// elemKey names the element an index expression denotes, with an index into a tail slice folded into the index:
+// (x[a:])[i] and x[i+a] (and x[a+i]) get the same key. "" when the expression is not an index expression.
+func elemKey(e ast.Expr) string {
+	ix, ok := unparen(e).(*ast.IndexExpr)
+	if !ok {
+		return ""
+	}
+	var addends []string
+	var add func(e ast.Expr)
+	add = func(e ast.Expr) {
+		if be, ok := unparen(e).(*ast.BinaryExpr); ok && be.Op == token.ADD {
+			add(be.X)
+			add(be.Y)
+			return
+		}
+		if c := canon(e); c != "0" {
+			addends = append(addends, c)
+		}
+	}
+	add(ix.Index)
+	base := unparen(ix.X)
+	for {
+		sl, ok := base.(*ast.SliceExpr)
+		if !ok || sl.High != nil || sl.Max != nil {
+			break
+		}
+		if sl.Low != nil {
+			add(sl.Low)
+		}
+		base = unparen(sl.X)
+	}
+	sort.Strings(addends)
+	return canon(base) + "[" + strings.Join(addends, "+") + "]"
 }
 
 // keysIssues: the loop ranges over the map parameter, appends the range key on every path, never leaves early,
